@@ -10,6 +10,14 @@ CHECKS = {
    technique="TLC model checking of a TLA+ transcription of the slice loop (Level 1) against the slice rule as a comprehension (Level 0); TLC-enumerated and random cases replayed into the real library, observations judged by TLC",
    text="TLC shows that the 32-bit slice loop as specified (MC_Slice: Adjust/LoopStep/LoopExit) never overflows, never indexes out of bounds and yields exactly the comprehension on every (len,start,stop,step) of a boundary-heavy domain incl. the i32 edges; every such tuple, and seeded random tuples over the whole i32 range with arrays up to 60, is then run through `@[a:b:c]`, `@[n]` and Variable::slice of the real library and TLC judges each observation against the Level-0 rule. A negative-control configuration (unchecked `i += step`) must fail.",
    note="Trusted: TLC; Slice.tla Level 0 as the reading of the JMESPath slice rule; the driver's value abstraction. Bounded: enumerated lengths <= 4 (quick) / 6 (thorough); random tail is sampled, not exhaustive."),
+ "C03": dict(engine="lang", design="4/C03",
+   technique="TLC model checking of a TLA+ transcription of the Pratt parser (Level 1) against the published ABNF as sentence sets and a CYK recogniser (Level 0); exhaustive small-scope token and character strings and random texts replayed into the real parser, observations lexed and judged by TLC",
+   text="TLC explores the prefix tree of all token-kind strings up to 4 (quick) / 5 (thorough) tokens and shows that the parser model with every deviation switch off accepts exactly the strings the ABNF derives, that the CYK recogniser equals the bottom-up sentence sets, and that lexing the spelling of a token string returns it; the configuration with the deviations of the code as found must fail. Every such token string (spelled three ways), every character string over a 29-character alphabet up to length 3-4 and seeded random/mutated texts are compiled by the real library; TLC lexes each text with the Lexer model and accepts the observation iff parse success coincides with ABNF membership and failures are parse errors.",
+   note="Trusted: TLC; Grammar.tla as the transcription of the ABNF; Lexer.tla/JsonParse.tla as the reading of the lexical rules (numbers with exponents or >9 digits inside literals are outside the modelled domain and not judged). Strings longer than 14 tokens are decided by the deviation-free parser model, which is model-checked equal to the ABNF only up to the bound."),
+ "C04": dict(engine="lang", design="4/C04",
+   technique="TLC model checking: Pratt parser model vs. an operator-precedence shift-reduce machine driven by the binding-power table as data (Prec.tla) and a parser-independent parenthesisation (Paren.tla); real ASTs and search results of enumerated and random sentences judged by TLC",
+   text="On every ABNF sentence up to 5 (quick) / 6 (thorough) tokens, with positional payloads, TLC shows that the parser model builds exactly the tree the documented binding-power order dictates (Prec!TreeOf: explicit stack of open operators, left associativity, projections extending until a looser token), that wrapping the operands implied by the rules in parentheses leaves the tree unchanged, and that chains of one operator group left; a negative control with one binding power changed must fail. The real parser's public AST (parse() and Expression::as_ast()) for every such sentence, for its parenthesised spelling, and for random sentences of up to ~90 tokens is compared by TLC with Prec!TreeOf of the lexed tokens, and the search results of both spellings on two documents must agree.",
+   note="Trusted: TLC; Prec.tla (table: pipe 1 < or 2 < and 3 < comparison 5 < flatten 9 < wildcard 20 < filter 21 < dot 40 < not 45 < bracket 55 < call 60; equal level closes = left associativity). One recorded finding (multi-select list after a dot ends a projection's right-hand side) is reported as KNOWN-FINDING."),
 }
 
 def main():
